@@ -35,11 +35,27 @@ structure Cfg where
   hsCloses : Bool
   deriving Repr, DecidableEq
 
-/-- The configuration read from the current source. -/
+/-- Position of the first occurrence of an operation code in a regenerated operation list. -/
+def opIdx (ops : List Nat) (code : Nat) : Option Nat :=
+  let i := ops.findIdx (· == code)
+  if i < ops.length then some i else none
+
+/-- `a` and `b` occur and the first `a` precedes the first `b`. -/
+def opBefore (ops : List Nat) (a b : Nat) : Bool :=
+  match opIdx ops a, opIdx ops b with
+  | some i, some j => decide (i < j)
+  | _, _ => false
+
+/-- The configuration read from the current source; the structural part is interpreted from the
+regenerated lists: `tryDial`'s select has exactly the send on `results` and the `Done` case of its own
+context that closes a non-nil connection; `connect` makes an unbuffered channel, derives `dialCtx`, defers
+`dialCancel`, starts the dialers on `dialCtx`, all before the collector loop. -/
 def cfgOfSource : Cfg :=
-  { unbuffered := Facts.C42.resultsUnbuffered
-    abandonCloses := Facts.C42.abandonCloses
-    cancelOnReturn := Facts.C42.dialCancelDeferred && Facts.C42.dialersUseDialCtx
+  { unbuffered := Facts.C42.resultsUnbuffered && Facts.C42.connectOps.contains 10 && !Facts.C42.connectOps.contains 11
+    abandonCloses := Facts.C42.abandonCloses && Facts.C42.tryDialSelect == [1, 2]
+    cancelOnReturn := Facts.C42.dialCancelDeferred && Facts.C42.dialersUseDialCtx &&
+      opBefore Facts.C42.connectOps 20 21 && opBefore Facts.C42.connectOps 21 22 &&
+      opBefore Facts.C42.connectOps 22 40 && !Facts.C42.connectOps.contains 23
     hsCloses := Facts.C42.hsFailCloses }
 
 inductive ConnSt | none | opened | closed
